@@ -75,7 +75,7 @@ fn collect(p: &P, field: usize, multi: bool, hidden: bool, in_alt: bool, transfo
         P::Hide(x) => collect(x, field, multi, true, in_alt, transformed, t, top),
         P::Parse(x, _) | P::Guard(x, _) => collect(x, field, multi, hidden, in_alt, true, t, top),
         P::Optional(x, _) | P::Fallback(x, _, _) | P::FallbackWith(x, _) | P::Map(x, _) | P::HideUsage(x) | P::CustomUsage(x, _) | P::GroupHelp(x, _) | P::WithGroupHelp(x, _) | P::Complete(x, _, _) | P::CompleteShell(x, _) => collect(x, field, multi, hidden, in_alt, transformed, t, top),
-        P::Pure(_) | P::PureWith(_) | P::Fail(_) | P::LiteralAnywhere(_) => {}
+        P::Pure(_) | P::PureWith(_) | P::Fail(_) | P::LiteralAnywhere(_) | P::AnyKv { .. } => {}
     }
 }
 
